@@ -13,7 +13,9 @@ package orderedmap
 // the reference and the key.
 //@ ufun omhas(Int, Int) Bool
 //@ absdef omhas(m, k) = m.pairs != nil && mhas(m.pairs, k)
-//@ ufun omnonempty(Int) Bool
+// omlen: the abstract view "number of entries", in the same way
+//@ ufun omlen(Int) Int
+//@ absdef omlen(m) = ite(m.pairs == nil, 0, mlen(m.pairs))
 
 // pairs are handed out as references (possibly nil) into a read-only heap; their key and value are functions of the
 // reference
@@ -44,15 +46,15 @@ package orderedmap
 //@   ensures[C51] !omhas(om, key) ==> result == nil
 //@   ensures[C51] omhas(om, key) ==> result == mget(om.pairs, key)
 
+// (Len also accepts a nil receiver; a modelled receiver is non-nil, so that branch is not explored here)
 //@ func (*OrderedMap[K, V]).Len
 //@   props C51
-//@   requires om != nil
 //@   nofail
-//@   ensures[C51] result == ite(om.pairs == nil, 0, mlen(om.pairs))
+//@   ensures[C51] result == ite(om == nil, 0, omlen(om))
 
-// Oldest: assumed (the insertion-order list is not modelled) - non-nil exactly for a map that has an entry
+// Oldest: assumed (the insertion-order list is not modelled) - non-nil exactly for a map that has an entry (omlen > 0)
 //@ func (*OrderedMap[K, V]).Oldest
 //@   assumed
 //@   requires om != nil
 //@   nofail
-//@   ensures iff(result != nil, omnonempty(om))
+//@   ensures iff(result != nil, omlen(om) > 0)
